@@ -850,3 +850,338 @@ def c03_cli(ctx, broken):
     return {"summary": {"evaluations": evals, "nontrivial": nontriv, "families_rejected_by_repeat_check": tries - evals,
                         "what": "repeat-free ancestors (checked), isolated substitutions at the exact boundary distances, 2-10 samples, 1-3 contigs permuted / reverse-complemented per sample; expected = exactly the planted columns up to complementing a column; names in input order; equal lengths"},
             "samples": samples}
+
+
+# ----------------------------------------------------------------------------- C17 / C18
+
+def kmers_unique(seqs, m):
+    """all m-mers of all sequences unique on both strands (same m-mer at the same coordinate in
+    different samples is the same occurrence)"""
+    seen = {}
+    for s in seqs:
+        for j in range(len(s) - m + 1):
+            w = s[j:j + m]
+            c = min(w, revcomp(w))
+            if w == revcomp(w):
+                return False
+            if seen.setdefault(c, j) != j:
+                return False
+    return True
+
+
+def read_fasta(path):
+    out = []
+    if not os.path.exists(path):
+        return None
+    for l in open(path):
+        l = l.rstrip("\n")
+        if l.startswith(">"):
+            out.append([l[1:], ""])
+        elif out:
+            out[-1][1] += l
+    return out
+
+
+COMP = str.maketrans("ACGT", "TGCA")
+
+
+def lo_wellformed(prefix, nsamp, max_missing, ref=None, samples=None):
+    """well-formedness of the outputs of one `ska lo` run; returns an error string or None"""
+    snps = read_fasta(prefix + "_snps.fas")
+    if snps is None:
+        return "no SNP alignment written"
+    if len(snps) != nsamp:
+        return f"{len(snps)} sequences for {nsamp} samples"
+    L = set(len(s[1]) for s in snps)
+    if len(L) != 1:
+        return "output sequences differ in length"
+    n = L.pop()
+    for i in range(n):
+        col = "".join(s[1][i] for s in snps)
+        if len(set(col) & set("ACGT")) < 2:
+            return f"column {i} '{col}' has fewer than two A/C/G/T alleles"
+        missing = sum(1 for ch in col if ch not in "ACGT")
+        if missing / nsamp > max_missing + 1e-6:
+            return f"column {i} '{col}' has {missing}/{nsamp} missing samples (> {max_missing})"
+    if ref is not None:
+        pg = read_fasta(prefix + "_pseudo_genomes.fas")
+        vcf = [l.rstrip("\n").split("\t") for l in open(prefix + "_snps.vcf") if not l.startswith("#")]
+        if pg is None or len(pg) != nsamp or any(len(p[1]) != len(ref) for p in pg):
+            return "pseudo-genomes missing or of wrong length"
+        if len(vcf) != n:
+            return f"{len(vcf)} VCF records for {n} alignment columns"
+        called = {}
+        for ri, f in enumerate(vcf):
+            pos = int(f[1]) - 1
+            refb, alts = f[3], ([] if f[4] == "" else f[4].split(","))
+            if refb != (ref[pos] if ref[pos] in "ACGTN" else "N"):
+                return f"VCF REF {refb} at {pos+1} is not the reference base {ref[pos]}"
+            col = "".join(s[1][ri] for s in snps)
+            for si, g in enumerate(f[9:]):
+                dec = "." if g == "." else (refb if g == "0" else alts[int(g) - 1])
+                want = "." if col[si] in "-N" else col[si]
+                if dec != want:
+                    return f"VCF genotype of sample {si} at {pos+1} decodes to {dec}, alignment has {col[si]}"
+            called[pos] = col
+        for si, p in enumerate(pg):
+            for pos, ch in enumerate(p[1]):
+                want = called[pos][si] if pos in called else (ref[pos] if ref[pos] in "ACGTN" else "N")
+                if ch != want:
+                    return f"pseudo-genome of sample {si} at {pos+1} is {ch}, expected {want}"
+    return None
+
+
+def plant_family(rnd, k, nsamp, L, nsites, min_gap, kind="snp"):
+    base = rand_genome(rnd, L)
+    lo, hi = min_gap, L - min_gap
+    sites = []
+    p = lo + rnd.randint(0, k)
+    while p < hi and len(sites) < nsites:
+        sites.append(p)
+        p += min_gap + rnd.randint(0, 2 * k)
+    return base, sites
+
+
+def c17_cli(ctx, broken):
+    rnd = random.Random(ctx.seed * 122949829 + 61)
+    thorough = ctx.tier == "thorough"
+    evals = nontriv = 0
+    samples = []
+
+    def viol(what, **kw):
+        kw.update({"kind": "c17", "what": what})
+        return {"summary": {"evaluations": evals, "nontrivial": nontriv}, "violation": kw}
+
+    # 1. build_graph against the model (one process per case: build_graph initialises the global pool)
+    for _ in range(150 if thorough else 25):
+        k = rnd.choice([5, 7, 9, 15, 31, 33])
+        w = 64 if k <= 31 else 128
+        # canonical, non-palindromic keys (what a real build stores): every full k-mer then comes from one row
+        nsamp = rnd.randint(1, 5)
+        rows = {}
+        for _r in range(rnd.randint(1, 12)):
+            arms = rand_genome(rnd, k - 1)
+            if arms == revcomp(arms):
+                continue
+            key = min(pack(arms), pack(revcomp(arms)))
+            cells = [rnd.choice(SYMS) for _ in range(nsamp)]
+            if all(c == "-" for c in cells):
+                cells[0] = "A"
+            rows[key] = "".join(cells)
+        if not rows:
+            continue
+        table = ",".join(f"s{i}" for i in range(nsamp)) + "|" + ",".join(f"{a}:{b}" for a, b in rows.items())
+        line = f"lo_graph w={w} k={k} rc=1 table={table}"
+        r = core.run_impl(ctx, [line], "c17g")[0]
+        m, _ = core.run_model(ctx, [line])[0]
+        evals += 1
+        if r != m:
+            return viol("build_graph differs from the (k-1)-mer graph of the table on both strands", model_case=line, code=r[:600], model=m[:600])
+    # 2. planted isolated-SNP families
+    nfam = 200 if thorough else 16
+    done = tries = 0
+    while done < nfam and tries < 30 * nfam:
+        tries += 1
+        use_ref = rnd.random() < 0.5
+        k = rnd.choice([15, 17, 21, 31, 33] if use_ref else [7, 9, 11, 15, 21, 31, 33])
+        nsamp = rnd.randint(3, 10)
+        L = {7: 60, 9: 150, 11: 400}.get(k, 700)
+        base, sites = plant_family(rnd, k, nsamp, L, rnd.randint(1, 6), 2 * k + 1)
+        if not sites:
+            continue
+        fam = [list(base) for _ in range(nsamp)]
+        truth = {}
+        for p in sites:
+            alleles = [base[p]] + rnd.sample([x for x in "ACGT" if x != base[p]], rnd.randint(1, 2))
+            assign = [rnd.choice(alleles) for _ in range(nsamp)]
+            if len(set(assign)) < 2:
+                assign[0] = alleles[0]
+                assign[1] = alleles[1]
+            for si in range(nsamp):
+                fam[si][p] = assign[si]
+            truth[p] = "".join(assign)
+        seqs = ["".join(s) for s in fam]
+        if not kmers_unique(seqs + [base], k - 1):
+            continue
+        done += 1
+        d = fresh_dir(ctx, "c17cli")
+        files = []
+        for si, s in enumerate(seqs):
+            f = os.path.join(d, f"s{si}.fa")
+            write_fasta(f, [revcomp(s) if rnd.random() < 0.3 else s])
+            files.append(f)
+        write_fasta(os.path.join(d, "ref.fa"), [base], names=["g"])
+        threads = rnd.choice([1, 2, 4, 8])
+        code, out, err = ska(["build", "-o", os.path.join(d, "x"), "-k", str(k)] + files, d)
+        args = ["lo", os.path.join(d, "x.skf"), os.path.join(d, "o"), "--threads", str(threads)] + (["-r", os.path.join(d, "ref.fa")] if use_ref else [])
+        code, out, err = ska(args, d)
+        evals += 1
+        if code != 0:
+            return viol("ska lo failed on a planted family", stderr=err[-300:], k=k, sites=sites, genome=base, samples=seqs)
+        wf = lo_wellformed(os.path.join(d, "o"), nsamp, 0.1, base if use_ref else None)
+        if wf:
+            return viol("ill-formed output: " + wf, k=k, sites=sites, genome=base, samples=seqs, use_ref=use_ref)
+        snps = read_fasta(os.path.join(d, "o_snps.fas"))
+        cols = ["".join(s[1][i] for s in snps) for i in range(len(snps[0][1]))]
+        norm = lambda c: min(c, c.translate(COMP))
+        if use_ref:
+            vcf = [l.split("\t") for l in open(os.path.join(d, "o_snps.vcf")) if not l.startswith("#")]
+            got = {int(f[1]) - 1: cols[i] for i, f in enumerate(vcf)}
+            if got != truth:
+                return viol("with a reference: reported SNPs are not exactly the planted sites with the true alleles", k=k, threads=threads,
+                            expected={str(a): b for a, b in truth.items()}, observed={str(a): b for a, b in got.items()}, genome=base, samples=seqs, use_ref=True)
+        else:
+            if sorted(norm(c) for c in cols) != sorted(norm(c) for c in truth.values()):
+                return viol("reference-free: columns are not exactly the planted sites (up to order and strand)", k=k, threads=threads,
+                            expected=sorted(truth.values()), observed=sorted(cols), genome=base, samples=seqs, use_ref=False)
+        nontriv += 1
+        if len(samples) < 2:
+            samples.append({"k": k, "samples": nsamp, "sites": sites, "reference": use_ref, "threads": threads, "columns": cols[:6]})
+    # 3. well-formedness on arbitrary inputs: close SNPs, indels, missing data, other -m
+    for it in range(150 if thorough else 14):
+        k = rnd.choice([9, 11, 15, 21, 31])
+        nsamp = rnd.randint(3, 9)
+        L = {9: 150, 11: 300}.get(k, 500)
+        base = rand_genome(rnd, L)
+        seqs = []
+        for si in range(nsamp):
+            s = list(mutate(rnd, base, rnd.randint(0, 8)))
+            for _ in range(rnd.randint(0, 2)):
+                p = rnd.randrange(len(s))
+                if rnd.random() < 0.5:
+                    del s[p:p + rnd.randint(1, 6)]
+                else:
+                    s[p:p] = list(rand_genome(rnd, rnd.randint(1, 6)))
+            if rnd.random() < 0.3:
+                a = rnd.randrange(len(s))
+                s = s[:a] + s[a + rnd.randint(10, 60):]      # missing data
+            seqs.append("".join(s))
+        d = fresh_dir(ctx, "c17wf")
+        files = []
+        for si, s in enumerate(seqs):
+            f = os.path.join(d, f"s{si}.fa")
+            write_fasta(f, [s])
+            files.append(f)
+        write_fasta(os.path.join(d, "ref.fa"), [base], names=["g"])
+        m = rnd.choice([0.0, 0.1, 0.3, 0.5])
+        use_ref = rnd.random() < 0.5 and k >= 15
+        ska(["build", "-o", os.path.join(d, "x"), "-k", str(k)] + files, d)
+        code, out, err = ska(["lo", os.path.join(d, "x.skf"), os.path.join(d, "o"), "-m", str(m)] + (["-r", os.path.join(d, "ref.fa")] if use_ref else []), d)
+        evals += 1
+        if code != 0:
+            if "no entry node" in err:
+                continue
+            return viol("ska lo failed on an arbitrary family", stderr=err[-300:], k=k, genome=base, samples=seqs)
+        wf = lo_wellformed(os.path.join(d, "o"), nsamp, m, base if use_ref else None)
+        if wf:
+            return viol("ill-formed output on an arbitrary input: " + wf, k=k, m=m, genome=base, samples=seqs, use_ref=use_ref)
+        nontriv += 1
+    return {"summary": {"evaluations": evals, "nontrivial": nontriv, "families_rejected_by_uniqueness_check": tries - done,
+                        "what": "build_graph vs model; planted isolated-SNP families ((k-1)-mers unique on both strands, SNPs >= 2k apart and from the ends) with and without reference, threads 1-8: exact truth; arbitrary families (close SNPs, indels, missing data, several -m): well-formedness of alignment, VCF and pseudo-genomes"},
+            "samples": samples}
+
+
+def c18_cli(ctx, broken):
+    rnd = random.Random(ctx.seed * 141650939 + 71)
+    thorough = ctx.tier == "thorough"
+    evals = nontriv = 0
+    samples = []
+    planted_total = found_total = 0
+
+    def viol(what, **kw):
+        kw.update({"kind": "c18", "what": what})
+        return {"summary": {"evaluations": evals, "nontrivial": nontriv}, "violation": kw}
+
+    nfam = 150 if thorough else 16
+    done = tries = 0
+    while done < nfam and tries < 30 * nfam:
+        tries += 1
+        k = rnd.choice([11, 15, 21, 31])
+        nsamp = rnd.randint(3, 8)
+        L = {11: 350}.get(k, 800)
+        base = rand_genome(rnd, L)
+        nind = rnd.randint(1, 3)
+        sites = []
+        p = 4 * k + rnd.randint(0, k)
+        while p < L - 4 * k and len(sites) < nind:
+            sites.append(p)
+            p += 4 * k + rnd.randint(0, 3 * k)
+        if not sites:
+            continue
+        indels = []
+        for p in sites:
+            ln = rnd.randint(1, 10)
+            carriers = set(rnd.sample(range(nsamp), rnd.randint(1, nsamp - 1)))
+            if rnd.random() < 0.5:
+                indels.append((p, "del", ln, carriers, base[p:p + ln]))
+            else:
+                indels.append((p, "ins", ln, carriers, rand_genome(rnd, ln)))
+        seqs = []
+        for si in range(nsamp):
+            s = base
+            for (p, kind, ln, carriers, seq) in sorted(indels, reverse=True):
+                if si in carriers:
+                    s = (s[:p] + s[p + ln:]) if kind == "del" else (s[:p] + seq + s[p:])
+            seqs.append(s)
+        if not kmers_unique(seqs, k - 1) and False:
+            continue
+        # uniqueness is checked per sample (coordinates shift between samples)
+        if not all(kmers_unique([s], k - 1) for s in seqs):
+            continue
+        done += 1
+        d = fresh_dir(ctx, "c18cli")
+        files = []
+        for si, s in enumerate(seqs):
+            f = os.path.join(d, f"s{si}.fa")
+            write_fasta(f, [s])
+            files.append(f)
+        ska(["build", "-o", os.path.join(d, "x"), "-k", str(k)] + files, d)
+        threads = rnd.choice([1, 2, 4])
+        code, out, err = ska(["lo", os.path.join(d, "x.skf"), os.path.join(d, "o"), "--threads", str(threads), "-m", "0.5"], d)
+        evals += 1
+        if code != 0:
+            if "no entry node" in err:
+                continue
+            return viol("ska lo failed on a planted-indel family", stderr=err[-300:], k=k, samples=seqs)
+        recs = [l.rstrip("\n").split("\t") for l in open(os.path.join(d, "o_indels.vcf")) if not l.startswith("#")]
+        planted_total += len(indels)
+        matched = set()
+        for f in recs:
+            refa, alta = f[3], f[4]
+            info = dict(x.split("=") for x in f[6].split(";"))   # the code writes before/after in the FILTER column
+            before, after = info["before"], info["after"]
+            gts = f[9:]
+            alle = {"0": before + ("" if refa == "-" else refa) + after, "1": before + ("" if alta == "-" else alta) + after}
+            has = lambda s, a: (a in s) or (revcomp(a) in s)
+            for si, g in enumerate(gts):
+                in0, in1 = has(seqs[si], alle["0"]), has(seqs[si], alle["1"])
+                if g == "0" and not in0 or g == "1" and not in1 or g == "0/1" and not (in0 and in1):
+                    return viol("a sample is genotyped for an allele it does not carry", record=f[:9], sample=si, genotype=g, k=k, samples=seqs)
+            set0 = {si for si in range(nsamp) if has(seqs[si], alle["0"])}
+            set1 = {si for si in range(nsamp) if has(seqs[si], alle["1"])}
+            if set0 != {si for si, g in enumerate(gts) if g in ("0", "0/1")} or set1 != {si for si, g in enumerate(gts) if g in ("1", "0/1")}:
+                return viol("the genotyped sample sets are not exactly the carriers of REF / ALT", record=f[:9], carriers0=sorted(set0), carriers1=sorted(set1), genotypes=gts, k=k, samples=seqs)
+            # which planted indel is it? carriers of the shorter allele = deletion carriers / non-insertion carriers
+            hit = None
+            for ii, (p, kind, ln, carriers, seq) in enumerate(indels):
+                short_carriers = carriers if kind == "del" else set(range(nsamp)) - carriers
+                short = "0" if len(alle["0"]) < len(alle["1"]) else "1"
+                got_short = set0 if short == "0" else set1
+                if abs(len(alle["0"]) - len(alle["1"])) == ln and got_short == short_carriers:
+                    hit = ii
+            if hit is None:
+                return viol("a reported indel corresponds to no planted indel", record=f[:9], planted=[(p, kd, ln, sorted(c)) for (p, kd, ln, c, _) in indels], k=k, samples=seqs)
+            if hit in matched:
+                return viol("an indel is reported twice", record=f[:9], k=k, samples=seqs)
+            matched.add(hit)
+        found_total += len(matched)
+        nontriv += 1
+        if len(samples) < 2:
+            samples.append({"k": k, "samples": nsamp, "planted": [(p, kd, ln) for (p, kd, ln, _, _) in indels], "reported": len(recs), "threads": threads})
+    recall = found_total / planted_total if planted_total else 1.0
+    res = {"summary": {"evaluations": evals, "nontrivial": nontriv, "planted": planted_total, "reported_and_matched": found_total, "recall": round(recall, 3),
+                       "what": "planted isolated indels (length 1-10, >= 4k apart, (k-1)-mers unique per sample), k in {11,15,21,31}, 3-8 samples, threads 1-4: every record checked by substring search in the samples (carriers exact, no wrong genotype, one planted indel each, none twice), recall >= 90% overall"},
+           "samples": samples}
+    if planted_total >= 20 and recall < 0.9:
+        res["violation"] = {"kind": "c18", "what": f"only {found_total} of {planted_total} planted indels reported (< 90%)"}
+    return res
